@@ -861,7 +861,8 @@ def dump_one(f: TextIO, data: IOData):
     f.write("[GTO]\n")
     last_icenter = -1
     # The shells must be sorted by center.
-    for shell in sorted(obasis.shells, key=(lambda s: s.icenter)):
+    order = sorted(range(len(obasis.shells)), key=(lambda i: obasis.shells[i].icenter))
+    for shell in (obasis.shells[i] for i in order):
         if shell.icenter != last_icenter:
             if last_icenter != -1:
                 f.write("\n")
@@ -877,6 +878,10 @@ def dump_one(f: TextIO, data: IOData):
 
     # Get the permutation to convert the orbital coefficients to Molden conventions.
     permutation, signs = convert_conventions(obasis, CONVENTIONS)
+    # The rows must follow the order in which the shells were written.
+    offsets = np.cumsum([0] + [shell.nbasis for shell in obasis.shells])
+    rows = np.array([j for i in order for j in range(offsets[i], offsets[i + 1])], dtype=int)
+    permutation, signs = permutation[rows], signs[rows]
 
     # Print the mean-field orbitals
     if data.mo.kind == "unrestricted":
